@@ -180,16 +180,20 @@ type Session struct {
 	AuthCmds   []string          // AUTH command lines
 	Cleartext  []byte            // every byte received before TLS (whole session if no TLS)
 	TLSStarted bool
-	TLSOK      bool
-	TLSState   *tls.ConnectionState
-	HelloArgs  []string
-	SawEOF     bool // client closed (or we dropped)
-	Dropped    bool // server closed on purpose
-	Stalled    bool
-	QuitSeen   bool
-	Done       chan struct{}
-	counts     map[string]int
-	Caps       [][]string // capability sets sent, in order
+	// HandshakeBytes: what the client sent while a STARTTLS handshake that failed was running;
+	// PostTLSFail: what it sent afterwards on the raw connection.
+	HandshakeBytes []byte
+	PostTLSFail    []byte
+	TLSOK          bool
+	TLSState       *tls.ConnectionState
+	HelloArgs      []string
+	SawEOF         bool // client closed (or we dropped)
+	Dropped        bool // server closed on purpose
+	Stalled        bool
+	QuitSeen       bool
+	Done           chan struct{}
+	counts         map[string]int
+	Caps           [][]string // capability sets sent, in order
 }
 
 func (s *Session) violate(key, format string, args ...interface{}) {
@@ -607,8 +611,18 @@ func (s *Server) serve(rawConn net.Conn, implicitTLS bool, sess *Session) {
 				return
 			} else if ho.Kind == "garbage" {
 				sess.Steps = append(sess.Steps, "tlshandshake")
+				tap.mu.Lock()
+				gmark := len(tap.buf)
+				tap.mu.Unlock()
 				_, _ = tap.Write([]byte("this is not a TLS record\r\n"))
-				s.stall(c)
+				// give the client a moment to react, record what it sends (its ClientHello and whatever
+				// follows) separately from the cleartext, then close
+				_ = tap.SetReadDeadline(time.Now().Add(150 * time.Millisecond))
+				_, _ = io.ReadAll(tap)
+				tap.mu.Lock()
+				sess.HandshakeBytes = append([]byte{}, tap.buf[gmark:]...)
+				tap.buf = tap.buf[:gmark]
+				tap.mu.Unlock()
 				return
 			}
 			sess.Steps = append(sess.Steps, "tlshandshake")
@@ -625,11 +639,15 @@ func (s *Server) serve(rawConn net.Conn, implicitTLS bool, sess *Session) {
 				// whatever the client sends now is on the raw connection; keep reading it as cleartext
 				// for the tap (the client must send nothing but possibly QUIT)
 				tap.mu.Lock()
+				sess.HandshakeBytes = append([]byte{}, tap.buf[mark:]...)
 				tap.buf = tap.buf[:mark] // drop the handshake bytes themselves
 				tap.mu.Unlock()
 				_ = tap.SetReadDeadline(time.Now().Add(300 * time.Millisecond))
 				rest, _ := io.ReadAll(tap)
-				_ = rest
+				sess.PostTLSFail = rest
+				tap.mu.Lock()
+				tap.buf = tap.buf[:mark]
+				tap.mu.Unlock()
 				sess.SawEOF = true
 				return
 			}
